@@ -10,6 +10,11 @@ package query
 //@ ghost field pipelineStateMachine.cbCount int
 //@ ghost field pipelineStateMachine.cbWithErr bool
 //@ ghost field pipelineStateMachine.failed bool
+//@ # drained: the decrement of the pending counter made by the thread that is about to signal completion returned zero
+//@ # (every stage that was started has finished); handlingPanic: completion is signalled from the recover handler of
+//@ # pipeline.Execute (the only case in which the property allows completion while stages are pending)
+//@ ghost field pipelineStateMachine.drained bool
+//@ ghost field pipelineStateMachine.handlingPanic bool
 
 //@ # the completion callback is arbitrary client code: assumed not to re-enter the state machine.
 //@ # Its precondition is the property: if some stage failed, the error it is given is not nil.
@@ -49,6 +54,7 @@ package query
 //@   prop C19
 //@   modifies sm.completed.val, sm.cbCount, sm.cbWithErr
 //@   requires sm.failed ==> err != nil
+//@   requires[completion_is_signalled_only_after_every_started_stage_has_finished] sm.drained || sm.handlingPanic
 //@   ensures[signalled_at_most_once] sm.cbCount >= 0 && sm.cbCount <= 1 && sm.completed.val
 //@ end
 //@ func pipelineStateMachine.isCompleted
@@ -59,6 +65,9 @@ package query
 //@ func pipelineStateMachine.completeStage
 //@   prop C19
 //@   ghost_entry sm.failed = sm.failed || err != nil
+//@   ghost_entry sm.drained = false
+//@   ghost_entry sm.handlingPanic = false
+//@   ghost_after atomic.Int32.Dec sm.drained = (result == 0)
 //@   ghost_assign sm.done = store(sm.done, stageID, true)
 //@   requires smOK(sm)
 //@   modifies *
@@ -97,6 +106,7 @@ package query
 //@ # This rests on stage ids being unique (uuid), which is assumed.
 //@ func pipeline.executeStage
 //@   assume
+//@   may_panic
 //@   requires smOK(p.sm) && (parentStageID == "" || (!p.sm.done[parentStageID] && has(p.sm.stages, parentStageID)))
 //@   modifies *
 //@   ensures smOK(p.sm) && (parentStageID != "" ==> (!p.sm.done[parentStageID] && has(p.sm.stages, parentStageID)))
@@ -129,6 +139,7 @@ package query
 //@ stable pipeline.logger
 //@ func pipeline.Execute
 //@   prop C19
+//@   ghost_after pkg/error.Error p.sm.handlingPanic = true
 //@   requires smOK(p.sm) && p.logger != nil
 //@   modifies *
 //@   ensures_recovered[panic_completes_with_error] p.sm.completed.val && p.sm.cbCount <= 1
